@@ -41,6 +41,9 @@ def make_namespace():
     lib.add_class("Cls")
     ns = lib.add_namespace("ns")
     ns.add_class("Cls2")
+    # typedefs at library scope and inside the namespace
+    lib.add_declaration("typedef int Index")
+    ns.add_declaration("typedef long Offset")
     return lib
 
 
